@@ -119,7 +119,7 @@ Eval(g, S, fuel, D) ==
 QueryAnswers(case, fuel) ==
   LET qs == [i \in 1..Len(case.qvars) |-> V(case.qvars[i])]
       D == IF "defs" \in DOMAIN case THEN case.defs ELSE [x \in {} |-> x]
-      r == EvalSeq(case.body, InitK(0), fuel, D)
+      r == EvalSeq(ElabGs(case.body), InitK(0), fuel, D)
       labelled == FlatSeq([i \in 1..Len(r.out) |-> EnforceFd(ListOf(qs), r.out[i])])
   IN [answers |-> [i \in 1..Len(labelled) |-> Reify(labelled[i], qs)], cut |-> r.cut,
       finals |-> labelled]
